@@ -136,6 +136,11 @@ fn gen_name(rng: &mut Rng) -> Option<String> {
         9 => Some("n".repeat(255)),
         10 => Some(format!("{}a", "é".repeat(127))),
         11 => Some("日".repeat(85)),
+        // edge whitespace and control characters are part of the name exactly as presented
+        12 => Some(" bob ".into()),
+        13 => Some("alice\n".into()),
+        14 => Some("\tcarol".into()),
+        15 => Some(" ".into()),
         _ => Some(gen_string(rng)).filter(|s| !s.is_empty() && s.len() < 100).or(Some("bob".into())),
     }
 }
@@ -186,7 +191,9 @@ fn mutate(rng: &mut Rng, g: &R, kind: u64, ids: &[Ident], other: usize) -> R {
         6 => { r.rec.sequence_number = r.rec.sequence_number.wrapping_sub(1); "seq-1".into() }
         7 => { r.rec.sequence_number ^= 1 << rng.below(64); "seq bit flipped".into() }
         8 => { r.rec.name = match &r.rec.name { None => Some("mallory".into()), Some(_) => None }; "name None<->Some".into() }
-        9 => { r.rec.name = Some(match &r.rec.name { Some(n) => format!("{}x", n), None => "x".into() }); "name extended".into() }
+        9 => { let suffix = *rng.pick(&["x", " ", "\n", "\t", "\u{a0}"]);
+               r.rec.name = Some(match &r.rec.name { Some(n) => if rng.chance(1, 2) { format!("{}{}", n, suffix) } else { format!("{}{}", suffix, n) }, None => "x".into() });
+               "name extended at an edge (letters / whitespace)".into() }
         10 => { r.rec.name = Some(String::new()); "name := Some(\"\")".into() }
         11 => {
             // move the name's last byte (ASCII names only) into nothing: shorter name
